@@ -137,11 +137,13 @@ func specMs(d time.Duration) float64 { return ConvertDurationToMs(d) }
 //@ modifies elemtype(*ProbeResponse), resultsMu
 
 //@ func TracerouteParallel$2
-//@ safety C06 C14
+//@ safety C06 C10 C14
 //@ requires[pre.valid]        p.MinTTL >= 1 && p.MinTTL <= p.MaxTTL && t != nil && writerCtx != nil && sendN >= 0
 //@ ensures[C06.par.order]     (sendN == old(sendN) || sendN - old(sendN) <= int(p.MaxTTL)-int(p.MinTTL)+1) && forall(k, old(sendN), sendN, sel(sendLog, k) == int(p.MinTTL) + (k - old(sendN)))
 //@ ensures[C06.par.pace]      forall(k, old(sendN)+1, sendN, sel(sendClock, k) >= sel(sendClock, k-1) + int(p.SendDelay))
 //@ ensures[ghost.mono]        sendN >= old(sendN)
+//@ ensures[C10.send.fatal]    ncalls(TracerouteDriver.SendProbe) > old(ncalls(TracerouteDriver.SendProbe)) && lastres(TracerouteDriver.SendProbe, 0) != nil ==> ret0 != nil && wraps(ret0, lastres(TracerouteDriver.SendProbe, 0))
+//@ loop 1 invariant[C10.send.handled] ncalls(TracerouteDriver.SendProbe) == old(ncalls(TracerouteDriver.SendProbe)) || lastres(TracerouteDriver.SendProbe, 0) == nil
 //@ stable C06.par.order C06.par.pace ghost.mono
 //@ modifies ghost clock, ghost sendN, ghost sendLog, ghost sendClock
 //@ loop 1 invariant[i.range]  int(p.MinTTL) <= i && i <= int(p.MaxTTL)+1
@@ -150,11 +152,14 @@ func specMs(d time.Duration) float64 { return ConvertDurationToMs(d) }
 //@ loop 1 invariant[C06.last] sendN > old(sendN) ==> now() >= sel(sendClock, sendN-1) + int(p.SendDelay)
 
 //@ func TracerouteParallel$3
-//@ safety C09 C04 C05 C07 C14
+//@ safety C09 C04 C05 C07 C10 C14
 //@ requires[pre.valid]        p.MinTTL >= 1 && p.MinTTL <= p.MaxTTL && t != nil && groupCtx != nil && len(results) == int(p.MaxTTL)+1 && !held(resultsMu)
 //@ ensures[C14.unlocked]      !held(resultsMu)
 //@ modifies elemtype(*ProbeResponse), resultsMu, ghost clock
 //@ loop 1 invariant[unlocked] !held(resultsMu)
+// a receive error that is not retryable is never swallowed: the goroutine returns it (wrapped), which fails the run
+//@ ensures[C10.recv.fatal]    ncalls(TracerouteDriver.ReceiveProbe) > old(ncalls(TracerouteDriver.ReceiveProbe)) && lastres(TracerouteDriver.ReceiveProbe, 1) != nil && !CheckProbeRetryable("ReceiveProbe", lastres(TracerouteDriver.ReceiveProbe, 1)) ==> ret0 != nil && wraps(ret0, lastres(TracerouteDriver.ReceiveProbe, 1))
+//@ loop 1 invariant[C10.recv.handled] ncalls(TracerouteDriver.ReceiveProbe) == old(ncalls(TracerouteDriver.ReceiveProbe)) || lastres(TracerouteDriver.ReceiveProbe, 1) == nil || CheckProbeRetryable("ReceiveProbe", lastres(TracerouteDriver.ReceiveProbe, 1))
 // every reply the driver hands over without error that passes validation is given to writeProbe in the same iteration
 // (nothing accepted is dropped, whatever the sender is doing at that moment)
 //@ loop 1 step[C07.recv.all]  ncalls(TracerouteDriver.ReceiveProbe) == iter(ncalls(TracerouteDriver.ReceiveProbe)) + 1 && lastres(TracerouteDriver.ReceiveProbe, 0) != nil && lastres(TracerouteDriver.ReceiveProbe, 1) == nil ==> ncalls("TracerouteParallel$1") == iter(ncalls("TracerouteParallel$1")) + 1 && lastarg("TracerouteParallel$1", probe) == lastres(TracerouteDriver.ReceiveProbe, 0)
